@@ -157,7 +157,7 @@ def gen_env(rng, pf):
         "cash": rng.choice(pf.get("cash", [100.0, 1e5, 1e6])) if not any(c["kind"] == "future" for c in specs) else rng.choice([1e6, 1e7]),
         "space": space, "folds": folds, "markov": markov, "warmup_s": warm,
         "episode_length": None, "sampling_span": None,
-        "ts_type": rng.choice(pf.get("ts_types", ["datetime", "datetime", "timestamp"])),
+        "ts_type": rng.choice(pf.get("ts_types", ["datetime", "datetime", "datetime", "timestamp", "timestamp", "mixed_grid_ts", "mixed_events_ts"])),
         "state": {"type": "rec", "feature": rng.random() < 0.7, "k": rng.randint(1, 4)},
     }
     return env
